@@ -12,8 +12,8 @@ Proof. exact binary_is_version. Qed.
 Print Assumptions C21_binary_is_version_partial.
 
 (* SQL dump inside one read transaction (partial: snapshot isolation of a SQLite read transaction is the model's hypothesis) *)
-Theorem C21_dump_is_version_partial : forall tables k0 sched w0 w,
-  k w0 = k0 -> snap w0 = None -> out w0 = nil -> tables <> O ->
+Theorem C21_dump_is_version_partial : forall tables k0, tables <> O -> forall sched w0 w,
+  k w0 = k0 -> snap w0 = None -> out w0 = nil ->
   run (dump_step tables tables) sched (w0, DBegin) = (w, DDone) ->
   point_in_time k0 w tables.
 Proof. exact dump_is_version. Qed.
